@@ -12,7 +12,7 @@ INFO = dict(
         "'//', ';' included), query from 8 concrete strings (percent-escapes, '+', empty values, repeated keys, bad escapes), 0..3 header "
         "lines with symbolic keys (1..2 bytes, no CR/LF, no ': ') and values (0..2 bytes, no CR/LF), body of 0..12 fully symbolic bytes "
         "(CR LF CR LF and NUL included); responses: status of 3 symbolic digits 100..599, reason token 1..3 symbolic bytes, same "
-        "headers/body; malformed start lines: every first line of 0..7 symbolic bytes",
+        "headers/body; malformed start lines: every first line of 0..7 symbolic bytes, also behind the prefixes 'HTTP/', 'HTTP/1.1 200 ' and 'GET / '",
         thorough="path up to 10 bytes, 4 header lines, body up to 24 bytes, first line up to 9 bytes",
     ),
     outside="percent-decoding itself (urllib.parse.parse_qsl runs natively on the enumerated concrete queries; the solver proves that "
@@ -139,7 +139,7 @@ def h_response(version, rlen, nh, klen, vlen, blen):
     return body
 
 
-def h_badline(L):
+def h_badline(L, prefix=b""):
     def body(ctx):
         line = sym_bytes("line", L)
         for c in line.cells:
@@ -150,6 +150,7 @@ def h_badline(L):
             else:
                 ctx.assume(mkbool(z3.And(c != 10, c != 13)))
         # independent count of whitespace separated parts
+        line = SymBytes(list(prefix) + line.cells)
         parts, inword = 0, False
         for c in line.cells:
             ws = (c in WS) if isinstance(c, int) else truth(mkbool(z3.Or(*[c == k for k in WS])))
@@ -190,6 +191,11 @@ def instances(tier):
                                 dict(kind="response", version=version.decode(), reason_len=rlen)))
     for L in (range(0, 8) if q else range(0, 10)):
         out.append(Instance("malformed first line L=%d" % L, h_badline(L), dict(kind="badline", L=L, cost=3 ** L), split=8))
+    # structure-aware: status lines ('HTTP/' + symbolic tail) and request-like lines ('GET / ' + tail) with too few / too many parts
+    for prefix in (b"HTTP/", b"HTTP/1.1 200 ", b"GET / "):
+        for L in (range(0, 8) if q else range(0, 10)):
+            out.append(Instance("malformed first line %r + L=%d" % (prefix.decode(), L), h_badline(L, prefix),
+                                dict(kind="badline", prefix=prefix.decode(), L=L, cost=3 ** L), split=8))
     return out
 
 
